@@ -79,6 +79,11 @@ def chk_grouping(inp):
                 b = [-1] + sp + [N - 1]
                 eq_groups = [numpy.arange(b[k] + 1, b[k + 1] + 1) for k in range(L)]
                 if all(len(g) for g in groups) and all(len(g) for g in eq_groups):
+                    # the cost of the RETURNED profile: every input layer moved to the returned height of its group
+                    got = sum((p[g] * abs(h[g] - hL[k])).sum() for k, g in enumerate(groups))
+                    if got > cost(eq_groups, h, p) * (1 + 1e-9):
+                        return bad("optimal_grouping(%s, L=%d, RNG state %d): the returned heights / strengths cost more than the equal split the search starts from" % (name, L, state),
+                                   float(got), float(cost(eq_groups, h, p)))
                     if cost(groups, h, p) > cost(eq_groups, h, p) * (1 + 1e-9):
                         return bad("optimal_grouping(%s, L=%d, RNG state %d): cost worse than the equal split" % (name, L, state), float(cost(groups, h, p)), float(cost(eq_groups, h, p)))
 
